@@ -89,6 +89,8 @@ def decl_specs(tier):
         specs.append({'shape': sh})
     for tag, lines, extra in SPECIAL:
         specs.append({'special': tag})
+    for lin in LINEAGES:
+        specs.append({'lineage': lin})
     comps = [c for c in alphabet.COMPONENTS]
     red = [c for c in alphabet.REDUCED]
     for c in comps:
@@ -288,11 +290,69 @@ def check_spec(spec, st, tier, only=None):
             w.dispose()
 
 
+LINEAGES = [['HB', 'BH', 'HB'], ['HH', 'II', 'HH'], ['H', 'L', 'h'], ['BD', 'DB'], ['vB', 'sB', 'vB'], ['TB', 'BT'], ['pH', 'qH'], ['BkH', 'BjH'],
+            ['HLH', 'LHL', 'HHH']]
+
+
+def check_lineage(spec, st, tier, only=None):
+    """same-named classes with DIFFERENT layouts defined one after the other in ONE module (they share one cache file), under each
+    option combination; each must behave like the same layout defined alone with generation off. The module text is executed
+    twice: the second round meets the cache file the last definition of the first round left."""
+    shapes_ = spec['lineage']
+    inputs = list(alphabet.all_strings([0, 1, 2, 0xff, 0x41], 3))
+    for fill in (0, 1, 0xff):
+        for n in (4, 6, 9):
+            inputs.append(bytes([fill]) * 2 + ea.RAMP[:n - 2])
+    off = {'generate_for_pack': False, 'generate_for_unpack': False, 'vectorize': True, 'annotate': True}
+    refs = []
+    worlds = []
+    try:
+        for sh in shapes_:
+            w = mk.World()
+            worlds.append(w)
+            refs.append(w.module(mk.class_src('K', shape_lines(sh), off)).K)
+        expected = []
+        for K in refs:
+            row = []
+            for raw in inputs:
+                o, p = unpack_outcome(K, raw)
+                row.append((o, pack_outcome(p) if p is not None else None))
+            expected.append(row)
+        st.inc('programs')
+        for opts in VARIANTS:
+            src = ''.join(mk.class_src('K', shape_lines(sh), opts) + 'K__%d = K\n\n' % i for i, sh in enumerate(shapes_))
+            w = mk.World()
+            worlds.append(w)
+            m = w.module(src)
+            for rnd in range(2):
+                for i, sh in enumerate(shapes_):
+                    K = getattr(m, 'K__%d' % i)
+                    for raw, (eo, ep) in zip(inputs, expected[i]):
+                        st.inc('evaluations')
+                        o, p = unpack_outcome(K, raw)
+                        po = pack_outcome(p) if p is not None else None
+                        if o != eo or po != ep:
+                            st.violate('same-named classes in one module: %s differs' % ('unpack' if o != eo else 'pack'),
+                                       'definition #%d (%s, round %d) of K under %r: unpack(%r) -> %r / pack %r; the same layout alone with generation off: %r / %r | %s' % (
+                                           i, sh, rnd, opts, raw, o, po, eo, ep, src.replace('\n', '; ')),
+                                       {'spec': spec}, mk.HEADER + src + 'print(K__%d.unpack(%r))' % (i, raw))
+                            return
+                if rnd == 0:
+                    exec(compile(mk.HEADER + src, m.__file__, 'exec'), m.__dict__)
+        st.add('states', ('lineage', tuple(shapes_)))
+    finally:
+        for w in worlds:
+            w.dispose()
+
+
 def _shard(shard, nshards, payload):
     st = Stats()
     specs = decl_specs(payload['tier'])
     for i, spec in enumerate(specs):
         if i % nshards != shard:
+            continue
+        if 'lineage' in spec:
+            check_lineage(spec, st, payload['tier'])
             continue
         check_spec(spec, st, payload['tier'])
         if i % 131 == common.SEED % 131:
@@ -304,9 +364,9 @@ def run(tier):
     st = common.merge_all(common.run_sharded(_shard, {'tier': tier}))
     cov = ea.coverage(st, 'runs of 1-%d fixed-size fields over Int 1/2/4/8 (big/little, signed), Int 3/5, constant Data, a variable field (Data by field, marker, '
                           'repeated, Bits 4+4 / 3+13, positioned, aligned, Em) before/between/after runs, described fields, embed, class endianness/align, '
-                          'references, plus the whole component alphabet x wrappers; each under all 16 option combinations applied to every class; all inputs '
+                          'references, plus the whole component alphabet x wrappers; each under all 16 option combinations applied to every class; %d lineages of same-named classes with different layouts sharing one cache file under each combination; all inputs '
                           'up to the bound plus long ramp inputs; every parsed value packed again and with ill values per attribute; '
-                          'states = distinct (declaration, parsed value)' % (3 if tier == 'quick' else 4),
+                          'states = distinct (declaration, parsed value)' % (3 if tier == 'quick' else 4, len(LINEAGES)),
                       {'variants_per_program': 16})
     errs = [n for n in st.notes if n.startswith('HARNESS')]
     return {'stats': st, 'coverage': cov, 'harness_errors': errs,
@@ -316,5 +376,8 @@ def run(tier):
 
 def replay(case):
     st = Stats()
+    if 'lineage' in case['spec']:
+        check_lineage(case['spec'], st, 'thorough')
+        return st.violations
     check_spec(case['spec'], st, 'thorough', only=case)
     return st.violations
